@@ -53,6 +53,11 @@ CHECKS = {
         text="Every Hermitian class A = U diag(lam) U^H (n <= 4 quick / 5 thorough; lam over {-4,-1,0,2,4}(+-5) non-increasing: all-equal, zeros, mixed sign) with exactly unitary dyadic U, plus its 2^-27 / 2^27 scaled replica, and structure classes (diagonal with repeats, zero, real tridiagonal, integer with zero sub-columns, integer dense, rank one, Gaussian scaled 1e-8..1e8): P unitary, B real symmetric tridiagonal (exact pattern), P A P^H = B; eigenvalues real and equal to the known multiset, V unitary, A V = V Lambda, entry points agree. Non-Hermitian (5% margin) and non-square input must raise.",
         note="Trusted: oracle product, eigvalsh of the complex adjoint for non-constructed inputs; bound 1024 units.",
         design_ref="5/C08"),
+    "C09": dict(
+        technique="Spectral.tla square class space (known ||A||_F^2 and trace from TLC) and structure classes run through hessenbergize; contract residuals judged by MeasureTrace.tla",
+        text="All square classes of Spectral.tla (svd and Hermitian kinds, n <= 4 / 5) with 2^-100 / 2^100 scaled replicas, structure classes n = 1..6 (integer dense, already Hessenberg, triangular, Hermitian, zero column, zero matrix, a zero sub-diagonal entry at every elimination step, 0/1 patterns, permutation-like unitary, imaginary sub-column) and Gaussian matrices n <= 7 scaled 1e-8..1e8: P unitary, H = P A P^H, entries below the first sub-diagonal below bound, Frobenius norm preserved and equal to the TLC-known value, trace preserved for Hermitian classes.",
+        note="Trusted: oracle product; bound 1024 units.",
+        design_ref="5/C09"),
 }
 
 NOT_YET = "check not built yet in this round; see DESIGN.md section 5"
